@@ -74,6 +74,17 @@ def gen(run_seed: int, tier: str) -> dict:
             sc["targets"] = t.shuffle(dirs + top, "order") or ["."]
         else:
             sc["targets"] = []  # defaults to "."
+    # configuration that does NOT come from <root>/.thailint.yaml: an alternative file (--config / config=),
+    # command-line overrides, a .thailintignore - a worker that re-reads the default config would differ
+    if t.chance(1, 3, "altcfg"):
+        world.setdefault("extra", {})["alt/lint-alt.yaml"] = cpool.gen_config(t)
+        sc["alt_config"] = "alt/lint-alt.yaml"
+    if t.chance(1, 4, "ignorefile"):
+        world.setdefault("extra", {})[".thailintignore"] = "\n".join(t.sample(["tests/", "lib/", "*.js", "pkg/util/", "app/"], 1 + t.draw(2, "nign"), "ign")) + "\n"
+    if entry == "cli" and t.chance(1, 2, "overrides"):
+        opts = {"nesting": ["--max-depth", str(1 + t.draw(3, "ov"))], "srp": ["--max-methods", str(2 + t.draw(6, "ov"))],
+                "dry": ["--min-lines", str(3 + t.draw(3, "ov"))], "pipeline": ["--min-continues", str(1 + t.draw(2, "ov"))]}
+        sc["extra_args"] = opts.get(sc["cmd"], [])
     sc["xval"] = "real-pool" if t.chance(1, 10, "xval") else ("subprocess" if entry == "cli" and t.chance(1, 12, "xsub") else None)
     sc["exposure"] = {"kill_item": t.draw(F, "kill")} if t.chance(1, 16, "expo") else None
     return sc
@@ -97,7 +108,9 @@ def _target_paths(W: World, sc: dict) -> list[str]:
 def _call(zy, W: World, sc: dict, parallel: bool, pool="sim"):
     env = _env(W, sc, parallel, pool)
     if sc["entry"] == "cli":
-        argv = [sc["cmd"], "--format", sc["fmt"]]
+        argv = [sc["cmd"], "--format", sc["fmt"]] + list(sc.get("extra_args") or [])
+        if sc.get("alt_config"):
+            argv += ["--config", str(W.proj / sc["alt_config"]) if sc["abs"] else sc["alt_config"]]
         if not sc["recursive"]:
             argv.append("--no-recursive")
         if parallel:
@@ -105,6 +118,8 @@ def _call(zy, W: World, sc: dict, parallel: bool, pool="sim"):
         argv += _target_paths(W, sc)
         return zy.call("vsim.ops:cli_call", {"env": env, "argv": argv}, timeout=600)
     arg = {"env": env, "root": str(W.proj), "recursive": sc["recursive"]}
+    if sc.get("alt_config"):
+        arg["config_file"] = str(W.proj / sc["alt_config"])
     if sc["entry"] == "api-files":
         arg["method"] = "lint_files_parallel" if parallel else "lint_files"
         arg["paths"] = _target_paths(W, sc)
@@ -266,7 +281,9 @@ def _subprocess_pair(W: World, sc: dict):
     env = dict(os.environ, HOME=str(W.home), TMPDIR=str(W.tmp), PYTHONHASHSEED=str(sc.get("hashseed", 0)))
     outs = []
     for parallel in (False, True):
-        argv = [sys.executable, "-m", "src.cli", sc["cmd"], "--format", sc["fmt"]]
+        argv = [sys.executable, "-m", "src.cli", sc["cmd"], "--format", sc["fmt"]] + list(sc.get("extra_args") or [])
+        if sc.get("alt_config"):
+            argv += ["--config", str(W.proj / sc["alt_config"]) if sc["abs"] else sc["alt_config"]]
         if not sc["recursive"]:
             argv.append("--no-recursive")
         if parallel:
